@@ -105,7 +105,6 @@ Definition sym_T (rules toks : list string) : transformer :=
   mkT (fun n => if mem_string n rules then Some (fun vs => VUser n vs) else None)
       (fun ty => if mem_string ty toks then Some (fun t v => VUser ty [VTok t v]) else None).
 
-Definition path_eqb (a b : path) : bool := list_eqb Nat.eqb a b.
 Definition log_eqb (a b : log) : bool := list_eqb path_eqb a b.
 
 (* one tree with the four observed (value, log) pairs, in the order
